@@ -10,26 +10,26 @@ def _c(category, text, ref, note, technique, engine="hgdrive"):
 
 # families added while red-teaming (appended to the level text of the property)
 EXT = {
-    "C01": " Also: reference selections (readers depend on selector and all targets), collection / map / switch / reduce programs (compiled-edge and forward-scan oracles), and mesh_ programs with pause/resume and captured errors (user code at most once per instance, node and cycle). Round 5: mesh_ instances with two references (diamonds, re-rank when a root gains a dependency on a new key): a reader never keeps a dependency's previous result when both were due in the same scan.",
-    "C02": " Also: switch / map instances with timers (standalone-instance oracle) and reductions whose combiner graphs schedule themselves (every request of a live combiner honoured at its time). Round 4: keyed-map children that arm their first wake-up from a start hook and read nothing at creation; map_ over dynamic lists with self-scheduling children. Round 5: try_except children with timers and a node that throws (pending wake-ups survive the caught exception).",
-    "C03": " Also: packed structured parameters, sample3 with wiring-time passive markers. Round 4: trigger + passive structural bundle behind all-valid / default gates, fully and partially (null-source field) wired.",
-    "C04": " Also: consumers bound through references (set / dictionary / sibling list elements), int32-keyed and nested-composite shapes, window clears with removed-value / cleared flags. Round 4: dynamic lists (no fixed size); the indices named by a list's own per-tick delta. Round 5: explicit invalidation of whole list / bundle / dictionary endpoints.",
-    "C05": " Also: stdlib to_window duration and tick windows (ring growth after wrap, expiry), int32-keyed sets / dictionaries with capacity-boundary histories, window clears. Round 4: dynamic lists; list delta indices == children ticked.",
-    "C06": " Also: packed-parameter near-duplicates, passive-marker near-duplicates, one node with two error-capture requests of different detail (captured error values compared across wiring orders). Round 4: side-effecting nodes with neither input nor output wired twice with equal scalars stay two nodes. Round 5: node pairs of one definition with different capture options; each error output carries the detail of its own request.",
-    "C07": " Also: map / switch / reduce / record-replay cases, captured errors with differing capture options, a lazily registered polymorphic bundle family; building (wiring and make_executor) is serialised in threaded contexts. Round 4: the same recording program run three times over a carried GlobalState (sparse and cycle-aligned layouts) leaves the same buffer. Round 5: cases that select a GlobalContext on their own thread while other threads build and run.",
+    "C01": " Also: reference selections (readers depend on selector and all targets), collection / map / switch / reduce programs (compiled-edge and forward-scan oracles), and mesh_ programs with pause/resume and captured errors (user code at most once per instance, node and cycle). Round 5: mesh_ instances with two references (diamonds, re-rank when a root gains a dependency on a new key): a reader never keeps a dependency's previous result when both were due in the same scan. Round 6: maps whose pass_through argument comes out of a chain of nodes (the tagged edge still ranks the map after its producer).",
+    "C02": " Also: switch / map instances with timers (standalone-instance oracle) and reductions whose combiner graphs schedule themselves (every request of a live combiner honoured at its time). Round 4: keyed-map children that arm their first wake-up from a start hook and read nothing at creation; map_ over dynamic lists with self-scheduling children. Round 5: try_except children with timers and a node that throws (pending wake-ups survive the caught exception). Round 6: mesh_ instances with a self-scheduling node before their mesh reference (wake-ups armed before a pause are owed after the resume).",
+    "C03": " Also: packed structured parameters, sample3 with wiring-time passive markers. Round 4: trigger + passive structural bundle behind all-valid / default gates, fully and partially (null-source field) wired. Round 6: a node with two assembled list inputs that switches one of them passive / active at RUN TIME (make_passive): ticks of the passive list alone never run it, the other list still does.",
+    "C04": " Also: consumers bound through references (set / dictionary / sibling list elements), int32-keyed and nested-composite shapes, window clears with removed-value / cleared flags. Round 4: dynamic lists (no fixed size); the indices named by a list's own per-tick delta. Round 5: explicit invalidation of whole list / bundle / dictionary endpoints. Round 6: sets assigned as a whole (copy_value_from), also as dictionary / bundle children.",
+    "C05": " Also: stdlib to_window duration and tick windows (ring growth after wrap, expiry), int32-keyed sets / dictionaries with capacity-boundary histories, window clears. Round 4: dynamic lists; list delta indices == children ticked. Round 6: whole-value assignment of sets (empty onto empty, what it already holds, arbitrary) in every set-bearing shape.",
+    "C06": " Also: packed-parameter near-duplicates, passive-marker near-duplicates, one node with two error-capture requests of different detail (captured error values compared across wiring orders). Round 4: side-effecting nodes with neither input nor output wired twice with equal scalars stay two nodes. Round 5: node pairs of one definition with different capture options; each error output carries the detail of its own request. Round 6: forwarded forward declarations (a delayed binding bound to a second delayed binding, either binding wired first).",
+    "C07": " Also: map / switch / reduce / record-replay cases, captured errors with differing capture options, a lazily registered polymorphic bundle family; building (wiring and make_executor) is serialised in threaded contexts. Round 4: the same recording program run three times over a carried GlobalState (sparse and cycle-aligned layouts) leaves the same buffer. Round 5: cases that select a GlobalContext on their own thread while other threads build and run. Round 6: the same graph built and run twice under one selected GlobalContext (every build sees the user's state as handed in; it still holds the user's value afterwards).",
     "C08": " Also: collection-shaped feedback (reader delta == writer delta one step later), feedback loops inside try_except bodies with captured faults, passive readers next to active twins. Round 5: feedback inside keyed-map children.",
-    "C09": " Also: nested calls inside switch / map instances (standalone-instance oracle with the F18 emulation) and sub-graphs whose result re-arranges one structured 2x2 parameter (inline, nested, nested twice vs the re-arranged source). Round 5: sub-graphs that capture ports of the enclosing graph (two projections of one output).",
-    "C10": " Also: per-key error capture twins (failure isolation), two multiplexed dictionaries with differing key sets, nested calls inside the mapped function, maps nested in map instances over a shared dictionary.",
-    "C11": " Also: trees with 65-140 live elements, dictionary-valued reductions with a key-wise merge combiner. Round 4: ordered (non-associative) reductions: left fold in key order from the zero over contiguous keys, with an order-sensitive combiner. Round 5: a live, re-pointed zero (followed while the collection is empty / holds one element).",
-    "C12": " Also: several unmatched keys with a default branch, nested calls inside branches, twin switches differing only in reload-on-tick. Round 4: switch over one structured argument assembled from two ports (branch returns the parameter / a re-assembly / nodes on its elements); selections on held values.",
-    "C13": " Also: set / dictionary targets with retarget deltas (also when the old target writes in the retarget cycle), selections between sibling elements of one list output. Round 4: key-set (keys_) and dictionary readers inline, nested and nested twice below a re-pointed dictionary reference. Round 5: references handed through a nested pass-through, judged at the retarget cycles.",
-    "C14": " Also: map / switch / reduce children created and retired mid-run, add-only key histories with k-th stop faults, reductions with a zero ending on one key, switch branches ending in nested graphs. Round 4: constructed shutdown-sweep cases (map / reduction / ordered reduction with several live children, k-th stop failing; ordered chains that shrink right after a new maximum). Round 5: real-time graphs stopped with values still queued: start order and reverse stop order (lifecycle observer).",
-    "C15": " Also: keyed-map per-key capture (errors under the failing key only, key set of the error output), captured timer nodes checked against the abandoned-evaluation reference model. Round 4: try_except around a sub-graph whose failing node sits inside a keyed map child (message, time, once).",
-    "C16": " Also: conflating dictionary sources with no-effect deltas, graphs with several push sources, a ThreadSanitizer pass over the scenarios (thorough / VERIF_TSAN=1), bounded stop-to-return latency. Round 4: every source of a multi-source graph has its own capacity; the conflating drain criterion is the last accepted value. Round 5: start / stop order of the nodes of the push scenarios.",
-    "C17": " Also: push-while-waiting scenarios (C16 history checker), idle runs stopped early (bounded stop-to-return latency), lagging bursts of up to 1024 smallest-step cycles followed by owed timers, ThreadSanitizer pass. Round 4: push sources that own timers (scheduler extension), alone and next to a plain push source, pushes before the timers fall due. Round 5: stops while several blocking producers are parked on a full queue.",
-    "C18": " Also: a scheduler-using node on the runtime's generic (NodeBuilder::native) evaluate path with validity gating, against its own pending-set model. Round 4: scheduler-using nodes inside children of a keyed map, a reduction and a dynamic-list map (trace oracle: every pending time of a live child's node wakes it).",
-    "C19": " Also: repeated variables at different nesting depths, nominal bundle types with identical field lists, and the metamorphic relation 'mirrored parameter order gives the same match and rank'. Round 4: REF / SIGNAL leaves below dictionary and list patterns. Round 5: resolutions with pinned sizes over candidates whose size variables have different names.",
-    "C20": " Also: nested-composite bundle shapes, int32-keyed shapes, long dense recordings whose first gap comes after 64-129 cycles. Round 4: dynamic lists; the persistent memory backend (absolute-time entries, appended) through record and replay; recorders inside re-entered switch branches. Round 5: replays that start later than the recording.",
+    "C09": " Also: nested calls inside switch / map instances (standalone-instance oracle with the F18 emulation) and sub-graphs whose result re-arranges one structured 2x2 parameter (inline, nested, nested twice vs the re-arranged source). Round 5: sub-graphs that capture ports of the enclosing graph (two projections of one output). Round 6: wake-ups of sub-graphs that run as dynamic children (map_ per key / per list element, mesh_) by the C02 trace oracle; passive() call-site arguments only where every consumer of the parameter is a plain node.",
+    "C10": " Also: per-key error capture twins (failure isolation), two multiplexed dictionaries with differing key sets, nested calls inside the mapped function, maps nested in map instances over a shared dictionary. Round 6: the mapped dictionary reaches map_ through a re-pointed reference (selection between two dictionaries with the same keys): the surviving instances are re-bound, see the new element's value as a tick and keep their state; pass_through arguments produced by a chain of copy nodes.",
+    "C11": " Also: trees with 65-140 live elements, dictionary-valued reductions with a key-wise merge combiner. Round 4: ordered (non-associative) reductions: left fold in key order from the zero over contiguous keys, with an order-sensitive combiner. Round 5: a live, re-pointed zero (followed while the collection is empty / holds one element). Round 6: the reduced dictionary is a map_ output whose elements are references re-pointed by a broadcast flag while the element is silent (operator, node and sub-graph combiners, with / without zero).",
+    "C12": " Also: several unmatched keys with a default branch, nested calls inside branches, twin switches differing only in reload-on-tick. Round 4: switch over one structured argument assembled from two ports (branch returns the parameter / a re-assembly / nodes on its elements); selections on held values. Round 6: branches that return their parameter; branches whose result is a SET (the switch owns a collection-valued output): every instantiation - also the same spec again under reload-on-tick or default-to-default - starts from the empty set, deltas cohere with the previous reading.",
+    "C13": " Also: set / dictionary targets with retarget deltas (also when the old target writes in the retarget cycle), selections between sibling elements of one list output. Round 4: key-set (keys_) and dictionary readers inline, nested and nested twice below a re-pointed dictionary reference. Round 5: references handed through a nested pass-through, judged at the retarget cycles. Round 6: stdlib if_cmp (three-way selection) in the random programs; tsd[key] (getitem_) with a ticking key as the source of the reference (re-point, absent key, re-bind; readers inline and nested); a non-de-duplicating producer (republish) between the reference and its readers - an unchanged reference applied again never ticks.",
+    "C14": " Also: map / switch / reduce children created and retired mid-run, add-only key histories with k-th stop faults, reductions with a zero ending on one key, switch branches ending in nested graphs. Round 4: constructed shutdown-sweep cases (map / reduction / ordered reduction with several live children, k-th stop failing; ordered chains that shrink right after a new maximum). Round 5: real-time graphs stopped with values still queued: start order and reverse stop order (lifecycle observer). Round 6: mesh_ instances alive at shutdown with holes in the slot table, fault-free and with stop faults (F30 fixed, F31 known).",
+    "C15": " Also: keyed-map per-key capture (errors under the failing key only, key set of the error output), captured timer nodes checked against the abandoned-evaluation reference model. Round 4: try_except around a sub-graph whose failing node sits inside a keyed map child (message, time, once). Round 6: a capturing node whose ORDINARY output has the error schema too; the same consumer definition on both ports stays two nodes, the error reader ticks exactly in the throwing cycles.",
+    "C16": " Also: conflating dictionary sources with no-effect deltas, graphs with several push sources, a ThreadSanitizer pass over the scenarios (thorough / VERIF_TSAN=1), bounded stop-to-return latency. Round 4: every source of a multi-source graph has its own capacity; the conflating drain criterion is the last accepted value. Round 5: start / stop order of the nodes of the push scenarios. Round 6 (false alarm removed): refusals after the last cycle of a run that reached its end time on its own are the engine's shutdown.",
+    "C17": " Also: push-while-waiting scenarios (C16 history checker), idle runs stopped early (bounded stop-to-return latency), lagging bursts of up to 1024 smallest-step cycles followed by owed timers, ThreadSanitizer pass. Round 4: push sources that own timers (scheduler extension), alone and next to a plain push source, pushes before the timers fall due. Round 5: stops while several blocking producers are parked on a full queue. Round 6: stop requests that arrive while the graph is still STARTING (from a start hook / from another thread during a slow start); wall-clock alarms requested as a delay on a lagging cycle.",
+    "C18": " Also: a scheduler-using node on the runtime's generic (NodeBuilder::native) evaluate path with validity gating, against its own pending-set model. Round 4: scheduler-using nodes inside children of a keyed map, a reduction and a dynamic-list map (trace oracle: every pending time of a live child's node wakes it). Round 6: a real-time phase for wall-clock alarms (absolute and as a delay) requested while the cycle lags the wall clock: never earlier than the later of cycle time and wall clock, and delivered.",
+    "C19": " Also: repeated variables at different nesting depths, nominal bundle types with identical field lists, and the metamorphic relation 'mirrored parameter order gives the same match and rank'. Round 4: REF / SIGNAL leaves below dictionary and list patterns. Round 5: resolutions with pinned sizes over candidates whose size variables have different names. Round 6: overloads on concrete TS[named bundle] parameters over generated multiple-inheritance hierarchies (unequal parent chains joining at shared ancestors, parents listed in either order): the winner is the base the fewest parent edges away (breadth-first distance computed by the oracle), equal distances are ambiguous.",
+    "C20": " Also: nested-composite bundle shapes, int32-keyed shapes, long dense recordings whose first gap comes after 64-129 cycles. Round 4: dynamic lists; the persistent memory backend (absolute-time entries, appended) through record and replay; recorders inside re-entered switch branches. Round 5: replays that start later than the recording. Round 6: the recovery FOLD of a memory-backend recording (what a component seeds its inputs from) at every recorded instant equals the value the series really had then (live value copies compared with the engine's equals()).",
 }
 
 TRUST = "Trusts the g++-12 -O1 build of /repo's working tree with harness-side shims (chrono I/O, simdjson utf8, named time zones), truthful harness nodes/observer, and the stated oracle."
